@@ -43,9 +43,14 @@ ASSUMPTIONS = [
     "Repeat intervals are far longer than an execution (no asynchronous re-sends)",
 ]
 
-ALL_KINDS = ('P', 'I', 'C', 'F', 'G', 'Z', 'R', 'X', 'H', 'M')
+ALL_KINDS = ('P', 'I', 'C', 'F', 'G', 'Z', 'R', 'X', 'H', 'M', 'O', 'E')
+# O, E: OutputFunc whose function succeeds / fails (edges = on_success / on_error events)
 INIT_KINDS = ('P', 'Q', 'I', 'J')     # Q, J: no initialisation of their own (by event only)
-ETYPE = {'M': 'tg', 'H': 'tg', 'Q': 'ev', 'J': 'put', 'P': 'ev', 'I': 'put', 'C': 'inc', 'F': 'tg', 'G': 'tg', 'Z': 'tg', 'R': 'rp', 'X': 'put'}
+ETYPE = {'O': 'put', 'E': 'put', 'M': 'tg', 'H': 'tg', 'Q': 'ev', 'J': 'put', 'P': 'ev', 'I': 'put', 'C': 'inc', 'F': 'tg', 'G': 'tg', 'Z': 'tg', 'R': 'rp', 'X': 'put'}
+
+
+ERRVAL = 'errval'
+UNSET = ('unset',)
 
 
 class Rec(Exception):
@@ -71,6 +76,10 @@ def patterns(kinds, edges, full):
             k = kinds[i]
             if k == 'R':
                 ek = 'fwd'
+            elif k == 'O':
+                ek = 'succ'
+            elif k == 'E':
+                ek = 'err'
             elif mode == 'enter' and k in 'FGZX':
                 ek = 'enter'
             elif mode == 'every':
@@ -109,7 +118,7 @@ def ext_sequences(kinds, maxlen, variants):
     alpha = []
     for i, k in enumerate(kinds):
         for v in variants:
-            if v == 'missing' and k in 'FGZRCHM':
+            if v == 'missing' and k in 'FGZRCHMOE':
                 continue
             alpha.append((i, v))
     out = []
@@ -156,7 +165,7 @@ def configs(tier):
                     continue
                 if n == 3 and tier == 'quick' and len(edges) > 4:
                     continue
-                for pat in patterns(ks, edges, False)[:2]:
+                for pat in patterns(ks, edges, False)[:3 if 'F' in ks else 2]:
                     ung.append(dict(kinds=ks, edges=pat, seqs=('all', 1, ('valid',)), gated=False))
     return out + ung
 
@@ -170,6 +179,7 @@ class RefNet:
         self.st = list(states)      # per block: P,C -> int; I,X -> value; F,G,Z -> state
         self.active = set()
         self.uniq = 1000
+        self.inited = None
 
     def out_edges(self, i, ekind):
         return [e for e in self.edges if e[0] == i and e[2] == ekind]
@@ -184,13 +194,60 @@ class RefNet:
             return
         self.deliver(j, value)
 
+    # ---- start-up (events are not gated off): blocks are initialised in creation order; an
+    # event reaching a block whose synchronous initialisation has not begun makes it run first
+    # (outside the block's "handling an event" window, except that an FSM enters its initial
+    # state by an event of its own)
+    def init_all(self):
+        self.inited = [False] * len(self.kinds)     # initialisation begun (or done)
+        for j in range(len(self.kinds)):
+            self.init_block(j)
+        return [j for j, k in enumerate(self.kinds) if self.st[j] is None]
+
+    def init_block(self, j):
+        if self.inited[j]:
+            return
+        self.inited[j] = True
+        k = self.kinds[j]
+        if k in 'QJ':
+            return
+        if k in 'PC':
+            self.st[j] = 0
+            val = 0
+        elif k == 'R':
+            self.st[j] = 0
+            return
+        elif k in 'FI':
+            # an FSM enters its initial state, and an Input takes its initdef, by an event of
+            # its own: the block is handling an event meanwhile
+            if j in self.active:
+                raise Rec(j)
+            self.active.add(j)
+            try:
+                self.st[j] = val = 'a' if k == 'F' else 'i0'
+                for ek in ('out', 'every', 'enter'):
+                    for e in self.out_edges(j, ek):
+                        self.fire(e, val)
+            finally:
+                self.active.discard(j)
+            return
+        else:
+            raise ValueError(k)
+        for ek in ('out', 'every'):
+            for e in self.out_edges(j, ek):
+                self.fire(e, val)
+
     def deliver(self, j, value):
         if j in self.active:
             raise Rec(j)
+        if self.inited is not None and not self.inited[j]:
+            self.init_block(j)
         self.active.add(j)
         try:
             k = self.kinds[j]
             changed = True
+            if self.st[j] is None:      # first output of a block initialised by this event
+                self.st[j] = 0 if k == 'Q' else UNSET
             if k in 'PQ':
                 self.st[j] += 1
                 val = self.st[j]
@@ -219,6 +276,10 @@ class RefNet:
             elif k == 'R':
                 changed = False
                 val = 0
+            elif k in 'OE':
+                changed = False     # the output of an OutputFunc never changes
+                self.st[j] += 1
+                val = value if k == 'O' else ERRVAL
             if changed:
                 for e in self.out_edges(j, 'out'):
                     self.fire(e, val)
@@ -231,6 +292,9 @@ class RefNet:
             if k == 'R':
                 for e in self.out_edges(j, 'fwd'):
                     self.fire(e, value)
+            if k in 'OE':
+                for e in self.out_edges(j, 'succ' if k == 'O' else 'err'):
+                    self.fire(e, val)
         finally:
             self.active.discard(j)
 
@@ -347,6 +411,8 @@ def build(cfg, gate):
         if filt == 'condnone':
             et = edzed.EventCond(None, et)     # values are truthy -> 'no event'
         flt = [gatef] + ([rejectf] if filt == 'reject' else [])
+        if e[2] == 'err':
+            flt.append(edzed.DataEdit.add(value=ERRVAL))    # on_error events carry no value
         return edzed.Event(names[j], et, efilter=flt)
     blocks = []
     for i, k in enumerate(kinds):
@@ -387,6 +453,19 @@ def build(cfg, gate):
             if ens:
                 kw['on_enter_valid'] = ens
             blk = edzed.InputExp(names[i], duration=100000, initdef='x0', **kw)
+        elif k in 'OE':
+            calls = []
+
+            def func(value, _calls=calls, _fail=(k == 'E')):
+                _calls.append(value)
+                if _fail:
+                    raise ValueError('output function failure (intended)')
+                return value
+            blk = edzed.OutputFunc(
+                names[i], func=func,
+                on_success=[mk_event(e) for e in edges if e[0] == i and e[2] == 'succ'],
+                on_error=[mk_event(e) for e in edges if e[0] == i and e[2] == 'err'], **kw)
+            blk.vt_calls = calls
         elif k == 'R':
             fw = [e for e in edges if e[0] == i and e[2] == 'fwd']
             j = fw[0][1]
@@ -407,6 +486,8 @@ def read_states(kinds, blocks):
             out.append(b.output)
         elif k in 'FGZHM':
             out.append(b.state)
+        elif k in 'OE':
+            out.append(len(b.vt_calls))
         else:
             out.append(0)
     return out
@@ -426,6 +507,14 @@ def run_seq(cfg, seq, acc):
                                  f"{b.name}: handler nesting depth {b.max_depth} {when}"))
 
         async def driver():
+            exp_start, ref0 = 'ok', None
+            if not cfg['gated']:
+                ref0 = RefNet(cfg, [None] * len(kinds))
+                try:
+                    if ref0.init_all():
+                        exp_start = 'uninitialized'
+                except Rec:
+                    exp_start = 'recursion'
             task = asyncio.create_task(sim.circuit.run_forever())
             try:
                 await sim.circuit.wait_init()
@@ -433,15 +522,34 @@ def run_seq(cfg, seq, acc):
                 if cfg['gated'] or not isinstance(sim.circuit.error, edzed.EdzedCircuitError):
                     viol.append(('start-failed', f"wait_init() raised {err!r}, "
                                  f"error {sim.circuit.error!r}"))
+                elif exp_start == 'ok':
+                    viol.append(('start-refused-wrongly',
+                                 f"no event reaches a block that is handling an event during "
+                                 f"start-up and every block gets initialised, but the start "
+                                 f"failed with {sim.circuit.error!r}"))
                 else:
                     acc.count('start_refused')
+                    acc.count('start_refused_' + exp_start)
                 check_depth('during a failed start-up')
                 await stop(sim.circuit)
                 return
             check_depth('during start-up')
+            if exp_start == 'recursion':
+                viol.append(('recursion-not-refused',
+                             "during start-up an event reaches a block that is still handling an "
+                             f"event, but the circuit started; block states {read_states(kinds, blocks)}"))
+                await stop(sim.circuit)
+                return
             if any(b.output is edzed.UNDEF for b in blocks):
                 viol.append(('started-uninitialized', f"outputs {[b.output for b in blocks]}"))
             gate[0] = True
+            if ref0 is not None and exp_start == 'ok':
+                got0 = read_states(kinds, blocks)
+                if list(map(repr, got0)) != list(map(repr, ref0.st)):
+                    viol.append(('propagation-mismatch',
+                                 f"after start-up: block states {got0}, reference {ref0.st}"))
+                    await stop(sim.circuit)
+                    return
             ref = RefNet(cfg, read_states(kinds, blocks))
             prev = acc.state((cfg_key(cfg), tuple(map(repr, ref.st))))
             uniq = 1000
